@@ -4,9 +4,13 @@
    The slot is the identity of the element (the harness numbers the nodes in allocation
    order); it is created with the entry, never changes and disappears with it.
 
-   The only operation whose result the property does not pin down is the hinted insert of a
-   MultiMap (the place inside a run of equal keys): it takes the chosen position as an extra
-   input [choice] and *checks* that the choice keeps the list sorted. *)
+   Two operations of a MultiMap have a result the property text does not pin down; both take the
+   container's decision as an extra input [choice] and *check* it:
+   - the hinted insert (the place inside a run of equal keys): [choice] = position taken, the
+     reference checks that the list stays sorted there;
+   - remove(key) when several entries have that key (the text does not say which of them goes):
+     [choice] = rank of the removed entry, the reference checks that an entry of that rank exists
+     and has the key.  When the key is present a choice must be made (nothing removed = rejected). *)
 From Coq Require Import ZArith List Bool Arith Lia.
 Import ListNotations.
 Local Open Scope Z_scope.
@@ -70,6 +74,10 @@ Definition insert_at {A} (p : nat) (x : A) (l : list A) : list A := firstn p l +
 Definition valid_pos (k : Z) (p : nat) (l : list entry) : bool :=
   (p <=? length l)%nat && forallb (fun e => ekey e <=? k) (firstn p l) && forallb (fun e => k <=? ekey e) (skipn p l).
 
+(* the entry of rank p exists and has key k *)
+Definition key_at (k : Z) (p : nat) (l : list entry) : bool :=
+  match nth_error l p with Some e => ekey e =? k | None => false end.
+
 Fixpoint renumber (n : nat) (l : list entry) : list entry :=
   match l with
   | [] => []
@@ -130,9 +138,16 @@ Definition spec_step (f : flavour) (st : sstate) (o : op) (choice : nat) : sstat
           else (st, RBad)
       end
   | ORemKey k =>
-      match find_list k l with
-      | Some i => (s_set st (remove_nth i l) n, RNone)
-      | None => (st, RNone)
+      match f with
+      | FMap =>
+          match find_list k l with
+          | Some i => (s_set st (remove_nth i l) n, RNone)
+          | None => (st, RNone)
+          end
+      | FMulti =>
+          if has_key k l
+          then if key_at k choice l then (s_set st (remove_nth choice l) n, RNone) else (st, RBad)
+          else (st, RNone)
       end
   | ORemAt pos =>
       if (pos <? length l)%nat
